@@ -131,7 +131,8 @@ class Cli(Harness):
         outp = None
         if c['args']['output'] is not None:
             outp = os.path.join(workdir, 'out.rs') if c['output_creatable'] else os.path.join(workdir, 'no-such-dir', 'out.rs')
-            if os.path.exists(outp): os.remove(outp)
+            # an EXISTING output file with known content: when the input is at fault it must still have this content afterwards
+            if c['output_creatable']: open(outp, 'w').write('SENTINEL')
             args.append(outp)
         p = subprocess.run([self.cli_exe()] + args, stdout=subprocess.PIPE, stderr=subprocess.PIPE)
         content = open(outp).read() if outp and os.path.exists(outp) else None
@@ -152,7 +153,7 @@ class Cli(Harness):
             if code != 1: problems.append('exit %d' % code)
             if not err: problems.append('no diagnostic')
             if out: problems.append('stdout not empty')
-            if content is not None: problems.append('output file created')
+            if content is not None and content != 'SENTINEL': problems.append('output file created or modified')
         else:
             o = {'preset': 'serde_xml_rs' if c['args']['parser'] == 'serde-xml-rs' else 'quick_xml_de', 'derive': c['args']['derive'], 'sort': 'XmlName' if c['args']['sort'] == 'name' else 'Unsorted'}
             nat = replay.ask({'op': 'render', 'docs': [c['input']['doc']], 'options': [o]})
